@@ -146,6 +146,17 @@ def run(ctx):
                 ok2 = get_mdl(nm, kind) is c2 and kind.get_models()[nm] is c2
                 n_checks += 2
                 kind._plugins.pop(nm, None)
+                # every naming style is discoverable: leading underscore, lower case, digits
+                for nm2 in (f"_verif_private_{kind.__name__}", f"verifuser2{kind.__name__.lower()}", f"V{abs(hash(kind.__name__)) % 97}x_{kind.__name__}"):
+                    c3 = type(parent)(nm2, (parent,), {"_v": 3})
+                    try:
+                        ok3 = get_mdl(nm2, kind) is c3 and kind.get_models().get(nm2) is c3
+                    except Exception:
+                        ok3 = False
+                    n_checks += 1
+                    kind._plugins.pop(nm2, None)
+                    if not ok3:
+                        viol(f"registry/{kind.__name__}/runtime-subclass/name-style", f"run-time subclass named {nm2!r} of {parent.__name__} is not discoverable by name")
                 if not (ok1 and ok2):
                     viol(f"registry/{kind.__name__}/runtime-subclass", f"run-time subclass of {parent.__name__}: by-name lookup after (re)definition returns a stale or no class (first={ok1}, redefined={ok2})")
             # unknown model-parameter keys rejected for every model (keys of its ancestors / other models)
